@@ -31,7 +31,7 @@ func init() {
 func (c16) ID() string    { return "C16" }
 func (c16) Level() string { return "exploration" }
 func (c16) Rule() string {
-	return "cases of seven kinds on one directory: (race) 2..8 child PROCESSES (the harness binary in opener mode) x 1..4 goroutines each perform 50..400 Open attempts in total, also racing on a directory that does not exist yet; every successful opener immediately creates a token file with O_CREAT|O_EXCL in a side directory, writes a few uniquely named keys, removes the token and closes: a failing O_EXCL is an exact, clock-free witness that two holders overlapped; every rejected Open must return ErrDatabaseIsUsing; at the end all acknowledged keys must be readable; (fingerprint) while one holder sits idle, bursts of Open attempts from other processes and goroutines must all be rejected and must leave names, sizes, modes, mtimes and SHA-256 of every file of the directory unchanged; (release) Opens made to fail after the lock was taken (non-numeric *.data name, corrupt first chunk, data file replaced by a directory) must leave the directory openable - from the same process and from a child - once the cause is removed; (closing) at every file-level close event inside Close, observed through the hooks, an Open of the same directory must still be rejected (the holder lets go of the lock last), for both I/O types; (fail-race) on 200..400 fresh directories per case an Open that fails after taking the lock (unsupported I/O type) races with valid Opens from three goroutines that count themselves in and out: never more than one holder; (close-in-merge) Close is called from inside a running Merge of the same handle (at merge.afterRotate / merge.record / merge.beforeMarker, standard I/O): whatever Close answers, a second Open that succeeds while the first handle still accepts a Put means two owners; afterwards the directory must open and hold every key; (stale) Close on an already closed handle while another holder has the directory open must not let a third opener in. Non-trivial: race case with >=2 processes, >=1 rejected and >=2 successful Opens; distinct = hash of the case parameters and outcome counts"
+	return "cases of seven kinds on one directory: (race) 2..8 child PROCESSES (the harness binary in opener mode) x 1..4 goroutines each perform 50..400 Open attempts in total, also racing on a directory that does not exist yet; every successful opener immediately creates a token file with O_CREAT|O_EXCL in a side directory, writes a few uniquely named keys, removes the token and closes: a failing O_EXCL is an exact, clock-free witness that two holders overlapped; every rejected Open must return ErrDatabaseIsUsing; at the end all acknowledged keys must be readable; (fingerprint) while one holder sits idle, bursts of Open attempts from other processes and goroutines must all be rejected and must leave names, sizes, modes, mtimes and SHA-256 of every file of the directory unchanged; (release) Opens made to fail after the lock was taken (non-numeric *.data name, corrupt first chunk, data file replaced by a directory) must leave the directory openable - from the same process and from a child - once the cause is removed; (closing) at every file-level close event inside Close, observed through the hooks, an Open of the same directory must still be rejected (the holder lets go of the lock last), for both I/O types; (fail-race) on 600..1000 fresh directories per case an Open that fails after taking the lock (unsupported I/O type) races with valid Opens from three goroutines that count themselves in and out: never more than one holder; (close-in-merge) Close is called from inside a running Merge of the same handle (at merge.afterRotate / merge.record / merge.beforeMarker, standard I/O): whatever Close answers, a second Open that succeeds while the first handle still accepts a Put means two owners; afterwards the directory must open and hold every key; (stale) Close on an already closed handle while another holder has the directory open must not let a third opener in. Non-trivial: race case with >=2 processes, >=1 rejected and >=2 successful Opens; distinct = hash of the case parameters and outcome counts"
 }
 func (c16) Assumptions() []string {
 	return []string{"flock semantics of the host kernel", "child processes are real OS processes started from the harness binary"}
@@ -474,8 +474,8 @@ func (c16) Run(c core.Case, w *core.Worker) core.Result {
 		// on a directory that has no lock file yet, an Open that is bound to fail AFTER it took
 		// the lock (unsupported I/O type) races with valid Opens from other goroutines; every
 		// successful opener counts itself in and out: more than one holder at a time, ever,
-		// is a violation. 200..400 fresh directories per case.
-		trials := 200 + c.Index%200
+		// is a violation. 600..1000 fresh directories per case.
+		trials := 600 + c.Index%400
 		var holders, maxHolders atomic.Int64
 		nSucc, nFailBad := 0, 0
 		for t := 0; t < trials && res.Verdict != "violated"; t++ {
